@@ -1799,6 +1799,10 @@ class FDE:
                 return self.stub(n, None, args, kwargs)       # a local function the rule replaces by a stand-in
             if n in env and isinstance(env[n], tuple) and env[n] and env[n][0] == 'closure':
                 return self._invoke(env[n][1], args, kwargs, base_env=env[n][2])
+            if n in env and isinstance(env[n], tuple) and len(env[n]) == 2 and env[n][0] == 'class' and (env[n][1] in self.stubs or n in self.stubs) and env[n][1] not in self.constructors \
+                    and self.stub is not None:
+                self.effects.append(('call', env[n][1], None, tuple(args), tuple(sorted(kwargs.items(), key=lambda kv: kv[0]))))
+                return self.stub(env[n][1], None, args, kwargs)       # a class imported into the function that the rule replaces by a stand-in
             if n in env and isinstance(env[n], tuple) and len(env[n]) == 2 and env[n][0] == 'class' and env[n][1] in self.constructors:
                 self.effects.append(('instantiate', env[n][1], tuple(args), tuple(sorted(kwargs.items(), key=lambda kv: kv[0]))))
                 return self.constructors[env[n][1]](*args, **kwargs)       # a class imported into the function, constructed by the rule's stand-in
